@@ -840,8 +840,44 @@ def r04_18(ctx):
          ctx.bad(construct, f"`{ast.unparse(b)}` runs under {sorted(gs)}, i.e. also for a line the help block has already counted: the block's end position overshoots", g.loc(b)))
 
 
+def r04_19(ctx):
+    """R04.19 (a) an environment variable that is set to the empty string is set: parser 2's create_envvar() decides between
+    expanding a reference and keeping `${NAME}` by a presence test (`name in os.environ`, `... is not None`), like parser 1's
+    expandvars - a truthiness test on the looked-up value keeps the literal for `NAME=`; (b) parser 2 ends a help text where
+    parser 1 does: every indentation comparison in KconfigHelpBlock.parseImpl that decides whether a line belongs to the text
+    is `>= block_indent` (the indentation of the first help line; parser 1: `indent < len_` ends the text)."""
+    repo = ctx.repo
+    f = repo.func("esp_kconfiglib.kconfig_parser:Parser.create_envvar")
+    ctx.analysed(f.qual)
+    adds = [n for n in ast.walk(f.node) if isinstance(n, ast.Call) and ast.unparse(n.func).endswith("env_vars.add")]
+    if not adds:
+        raise AnchorError("create_envvar: env_vars.add not found")
+    fl = Flow(f.node, resolver=Resolver(f.node)).run()
+    gs = fl.guards_at(adds[0]) or set()
+    construct = "Parser.create_envvar/a reference is expanded when the variable is present, empty or not"
+    presence = [(k, p) for k, p in gs if (" in os.environ" in k and p and " not in " not in k) or (" not in os.environ" in k and not p) or (k.endswith(" is not None") and p) or (k.endswith(" is None") and not p)]
+    truthy = [(k, p) for k, p in gs if (k, p) not in presence]
+    (ctx.ok(construct, f.loc(adds[0])) if presence and not truthy else
+     ctx.bad(construct, f"the expanding arm runs under {sorted(gs)}: a variable that is set to the empty string is kept as the literal `${{NAME}}`, parser 1 expands it to \"\"", f.loc(adds[0])))
+    g = repo.func("esp_kconfiglib.kconfig_grammar:KconfigHelpBlock.parseImpl")
+    ctx.analysed(g.qual)
+    cmps = [n for n in ast.walk(g.node) if isinstance(n, ast.Compare) and len(n.ops) == 1 and any(
+        isinstance(c, ast.Call) and ast.unparse(c.func).endswith("leading_whitespace_len") for c in [n.left] + n.comparators)]
+    if len(cmps) < 2:
+        raise AnchorError("KconfigHelpBlock.parseImpl: indentation comparisons not found")
+    for i, c in enumerate(cmps):
+        construct = f"KconfigHelpBlock.parseImpl/indentation test #{i + 1} compares with the first help line"
+        other = c.comparators[0] if isinstance(c.left, ast.Call) else c.left
+        op = c.ops[0]
+        mirrored = not isinstance(c.left, ast.Call)
+        ok = ast.unparse(other) == "block_indent" and isinstance(op, (ast.LtE if mirrored else ast.GtE, ast.Gt if mirrored else ast.Lt))
+        (ctx.ok(construct, g.loc(c)) if ok else
+         ctx.bad(construct, f"`{ast.unparse(c)}`: a line indented less than the first help line still counts as help text under parser 2 - the properties that follow "
+                 "the help are swallowed, parser 1 ends the text there", g.loc(c)))
+
+
 def rules():
-    return [("R04.18", r04_18, 3), ("R04.17", r04_17, 2), ("R04.16", r04_16, 12), ("R04.15", r04_15, 1), ("R04.14", r04_14, 3), ("R04.13", r04_13, 1), ("R04.12", r04_12, 5), ("R04.11", r04_11, 3), ("R04.10", r04_10, 4), ("R04.1", r04_1, 20), ("R04.2", r04_2, 25), ("R04.3", r04_3, 14), ("R04.4", r04_4, 8), ("R04.5", r04_5, 5),
+    return [("R04.19", r04_19, 3), ("R04.18", r04_18, 3), ("R04.17", r04_17, 2), ("R04.16", r04_16, 12), ("R04.15", r04_15, 1), ("R04.14", r04_14, 3), ("R04.13", r04_13, 1), ("R04.12", r04_12, 5), ("R04.11", r04_11, 3), ("R04.10", r04_10, 4), ("R04.1", r04_1, 20), ("R04.2", r04_2, 25), ("R04.3", r04_3, 14), ("R04.4", r04_4, 8), ("R04.5", r04_5, 5),
             ("R04.6", r04_6, 3), ("R04.7", r04_7, 3), ("R04.8", r04_8, 4), ("R04.8b", r04_8b, 5), ("R04.9", r04_9, 2)]
 
 
